@@ -342,6 +342,15 @@ def main(mod, argv=None) -> int:
         with open(path, "w") as f:
             json.dump(mini, f, indent=1, default=str)
         reported.append((rule, path, vv[0], len(items)))
+        # the minimised file must reproduce the violation, exactly, in a fresh interpreter
+        if len(reported) <= 3:
+            try:
+                env = dict(os.environ, PYTHONHASHSEED="777", VERIF_NO_REEXEC="1")
+                out = subprocess.run([sys.executable, os.path.join(ROOT, "check"), mod.ID, "--replay", path], env=env, capture_output=True, text=True, timeout=600, cwd=ROOT)
+                if out.returncode != 1 or "digest matches" not in out.stdout or f"rule={rule}" not in out.stdout:
+                    harness_errors.append(f"replay of {path} in a fresh interpreter did not reproduce the violation exactly (rc={out.returncode}): {out.stdout[-300:]}")
+            except Exception as exc:  # noqa: BLE001
+                harness_errors.append(f"replay of {path} failed to run: {exc!r}")
 
     wall = time.time() - t0
     shapes = agg["shapes"]
